@@ -160,8 +160,11 @@ def pyEvalSafe : Expr → Option PyRes
         -- 0, 1, -1 to a large power, without iterating
         some (pyInt (if a.toInt = 0 then 0 else if a.toInt = 1 then 1 else if b.toInt % 2 = 0 then 1 else -1))
       else some (pyBin op a b)
-    | none, _ => none
-    | _, none => none
+    -- astronomically large only when the other operand has an int/bool value; an operand that raises or is outside the
+    -- property makes the whole tree `noDemand`, as in `pyEval`
+    | none, some (.val _) => none
+    | some (.val _), none => none
+    | none, none => none
     | _, _ => some .noDemand
 
 /-- spec verdict on the implementation's answer for (core e) / (fold e) -/
@@ -212,12 +215,14 @@ def handle (line : String) : String :=
     | some (.list [.atom "fold", es]) =>
       match parseExpr es with
       | some e =>
+        if impl == "no-surface-form" then id ++ "\tout-of-model(the tree has no literal surface form)\t-\t-" else
         let m := evalExpr realFloatOps e
         id ++ "\t" ++ showOut "folded" m ++ "\t" ++ (if rest.isEmpty then "-" else specVerdict e impl) ++ "\t" ++ classOf e
       | none => id ++ "\tbad-input\t-\t-"
     | some (.list [.atom "accept", es, vs]) =>
       match parseExpr es, parseExpr vs with
       | some e, some (.lit lit) =>
+        if impl == "no-surface-form" then id ++ "\tout-of-model(the tree has no literal surface form)\t-\t-" else
         let m := evalExpr realFloatOps e
         let model := match m with
           | .ok v => if modelAccepts v lit then "accepted" else "rejected"
